@@ -110,6 +110,19 @@ Definition dist_rel (c : smcfg) (s : state) (m : mon) : Prop :=
 (* the only configurations in which the user is asked to compare numbers *)
 Definition numeric_cfg (c : smcfg) : Prop := c_inp c = SMSelectModel.InYesNo /\ c_outp c = SMSelectModel.OutNumeric.
 
+Definition legacy_auth (a : SMSelectModel.legacy_alg) : bool :=
+  match a with SMSelectModel.LJustWorks => false | _ => true end.
+(* how a reported status can differ from the specified one: the combined manager may say authenticated
+   instead of unauthenticated, the LESC-only manager unauthenticated instead of authenticated *)
+Definition lrel (c : smcfg) (got want : N) : Prop :=
+  got = want \/ (c_var c = MBoth /\ got = authenticated_key /\ want = unauthenticated_key)
+  \/ (c_var c = MLesc /\ got = unauthenticated_key /\ want = authenticated_key).
+
+Lemma lrel_refl c x : lrel c x x.
+Proof. left. reflexivity. Qed.
+Local Hint Resolve lrel_refl : core.
+Arguments lrel : simpl never.
+
 Record Inv (c : smcfg) (s : state) (m : mon) : Prop := {
   i_dead : m_dead m = dead s;
   i_peer : m_peer m = peer s;
@@ -126,7 +139,13 @@ Record Inv (c : smcfg) (s : state) (m : mon) : Prop := {
   i_dist : dist_rel c s m;
   i_salg : salg s = SMSelectModel.SNumeric -> c_outp c = SMSelectModel.OutNumeric;
   i_user : match st s with UserWait | UserSuccess | UserFailed => numeric_cfg c | _ => True end;
-  i_pend : resp_pending s = true -> numeric_cfg c
+  i_pend : resp_pending s = true -> numeric_cfg c;
+  (* reported status (C35) *)
+  i_sleg : c_var c = MLegacy -> st s = Completed -> m_auth m = legacy_auth (lalg s);
+  i_sboth : c_var c = MBoth -> st s = Completed ->
+            (pstatus s = authenticated_key \/ pstatus s = unauthenticated_key) /\ (m_auth m = true -> pstatus s = authenticated_key);
+  i_snum : match st s with UserWait | UserSuccess | UserFailed => salg s = SMSelectModel.SNumeric | _ => True end;
+  i_link : lrel c (link_status s) (m_link m)
 }.
 
 Lemma inv_init c db0 : Inv c (init_state db0) (minit db0).
@@ -331,13 +350,13 @@ Proof.
     split; [|split]; [| | reflexivity ].
     + unfold track_in; cbn [is_fail]. cbn. rewrite Hph. cbn. unfold completed. cbn.
       unfold legacy_completed, maddr. rewrite Lt, (i_peer I), (i_db I).
-      destruct I. destruct (c_var c) eqn:Ev; try contradiction; inv_solve; try (rewrite Ev; exact I); intuition congruence.
+      destruct I. destruct (c_var c) eqn:Ev; try contradiction; inv_solve; try (rewrite Ev; exact I); try (intuition congruence); try (rewrite ?La; unfold legacy_auth; destruct (lalg s); intros; repeat split; auto; discriminate).
     + unfold check32_in; cbn [is_fail]. rewrite A. unfold answer32. rewrite Hph. cbn.
       rewrite Lt, Lp1, Lp2, Ls, list_eqb_refl. reflexivity.
   - split; [|split]; [| | reflexivity ].
     + unfold track_in; cbn [is_fail]. cbn. rewrite Hph. cbn. unfold completed. cbn.
       unfold legacy_completed. rewrite Lt.
-      destruct I. destruct (c_var c) eqn:Ev; try contradiction; inv_solve; try (rewrite Ev; exact I); intuition congruence.
+      destruct I. destruct (c_var c) eqn:Ev; try contradiction; inv_solve; try (rewrite Ev; exact I); try (intuition congruence); try (rewrite ?La; unfold legacy_auth; destruct (lalg s); intros; repeat split; auto; discriminate).
     + unfold check32_in; cbn [is_fail]. rewrite A. unfold answer32. rewrite Hph. cbn.
       rewrite Lt, Lp1, Lp2, Ls, list_eqb_refl. reflexivity.
 Qed.
@@ -531,7 +550,9 @@ Proof.
     destruct (c_bond c) eqn:Eb; destruct (c_var c) eqn:Ev; try contradiction;
     (split; [|split]; [| | reflexivity];
      [ unfold track_in; cbn [is_fail]; cbn; unfold completed; rewrite F; cbn; unfold maddr; rewrite ?(i_peer I), ?(i_db I);
-       destruct I; inv_solve; try (rewrite Ev; exact Logic.I); intuition congruence
+       pose proof (i_snum I) as Sn; rewrite Est in Sn;
+       destruct I; inv_solve; try (rewrite Ev; exact Logic.I); try (intuition congruence);
+       try (rewrite ?R2; cbn; intros; destruct (salg s); repeat split; auto; discriminate)
      | unfold check32_in; cbn [is_fail]; rewrite A; unfold answer32; rewrite Hph; cbn; rewrite Heb, list_eqb_refl; reflexivity ]).
   - (* lesc_pairing_random_exchanged *)
     destruct R as [R1 R2].
@@ -551,7 +572,9 @@ Proof.
     destruct (c_bond c) eqn:Eb; destruct (c_var c) eqn:Ev; try contradiction;
     (split; [|split]; [| | reflexivity];
      [ unfold track_in; cbn [is_fail]; cbn; unfold completed; rewrite F; cbn; unfold maddr; rewrite ?(i_peer I), ?(i_db I);
-       destruct I; inv_solve; try (rewrite Ev; exact Logic.I); intuition congruence
+       pose proof (i_snum I) as Sn; rewrite Est in Sn;
+       destruct I; inv_solve; try (rewrite Ev; exact Logic.I); try (intuition congruence);
+       try (rewrite ?R2; cbn; intros; destruct (salg s); repeat split; auto; discriminate)
      | unfold check32_in; cbn [is_fail]; rewrite A; unfold answer32; rewrite Hph; cbn; rewrite Heb, list_eqb_refl; reflexivity ]).
 Qed.
 
@@ -702,7 +725,9 @@ Proof.
     destruct (c_bond c) eqn:Eb; destruct (c_var c) eqn:Ev; try contradiction;
     (split; [|split; [|split]]; [ | exact G | left; reflexivity | intros Hn; contradiction ]);
     unfold track_out; cbn [is_fail]; cbn; unfold completed; rewrite F; cbn; unfold maddr; rewrite ?(i_peer I), ?(i_db I);
-    destruct I; inv_solve; try (rewrite Ev; exact Logic.I); intuition congruence.
+    pose proof (i_snum I) as Sn; rewrite Est in Sn;
+    destruct I; inv_solve; try (rewrite Ev; exact Logic.I); try (intuition congruence);
+    try (rewrite ?R2; cbn; intros; destruct (salg s); repeat split; auto; discriminate).
   - (* public keys exchanged: our confirm value *)
     destruct L as (La & Lb). split; [|split; [|split]].
     + unfold track_out. cbn [is_fail]. cbn. destruct I. unfold les_a, les_b in *. inv_solve.
@@ -732,6 +757,22 @@ Proof.
     destruct (Hna eq_refl). apply distribute_ok; auto.
   - apply Hnil. unfold check32_out. cbn [is_fail].
     destruct (st s); try contradiction. rewrite Hph. reflexivity.
+Qed.
+
+(* the status the model reports differs from the specified one only as lrel allows *)
+Lemma local_lrel c s m : Inv c s m -> lrel c (local_status c s) (expected_status c m).
+Proof.
+  intros I. pose proof (ph_of I) as Hph. pose proof (i_var I) as V.
+  pose proof (i_sleg I) as S1. pose proof (i_sboth I) as S2.
+  unfold local_status, expected_status, lrel.
+  destruct (st s) eqn:Est; rewrite Hph; try (destruct (c_var c); left; reflexivity).
+  destruct (c_var c) eqn:Ev.
+  - rewrite (S1 eq_refl eq_refl). left. unfold legacy_auth. destruct (lalg s); reflexivity.
+  - destruct (m_auth m); [right; right|left]; auto.
+  - destruct (S2 eq_refl eq_refl) as [[P|P] Q].
+    + destruct (m_auth m); [left|right; left]; auto.
+    + destruct (m_auth m); [rewrite (Q eq_refl) in P; discriminate|left; auto].
+  - left. reflexivity.
 Qed.
 
 (* ---- one operation ---- *)
@@ -764,6 +805,7 @@ Proof.
         rewrite Est in R. destruct R as [R1 R2]. rewrite R2. cbn.
         split; [|split; [reflexivity|split; [left; reflexivity|split; [reflexivity|split; [left; reflexivity|auto]]]]].
         pose proof (i_les I) as L. unfold les_rel in L. rewrite Est in L. pose proof (i_var I) as V. rewrite Est in V.
+        pose proof (i_snum I) as Sn. rewrite Est in Sn.
         destruct I. inv_solve; try discriminate; auto; try (destruct (c_var c); auto; fail).
       * split; [|split; [reflexivity|split; [right; right; right; reflexivity|split; [reflexivity|split; [left; reflexivity|intros Hc; contradiction]]]]].
         destruct I. inv_solve.
@@ -776,6 +818,7 @@ Proof.
         rewrite Est in R. destruct R as [R1 R2]. rewrite R2. cbn.
         split; [|split; [reflexivity|split; [left; reflexivity|split; [reflexivity|split; [left; reflexivity|auto]]]]].
         pose proof (i_les I) as L. unfold les_rel in L. rewrite Est in L. pose proof (i_var I) as V. rewrite Est in V.
+        pose proof (i_snum I) as Sn. rewrite Est in Sn.
         destruct I. inv_solve; try discriminate; auto; try (destruct (c_var c); auto; fail).
       * split; [|split; [reflexivity|split; [right; right; right; reflexivity|split; [reflexivity|split; [left; reflexivity|intros Hc; contradiction]]]]].
         destruct I. inv_solve.
@@ -785,7 +828,7 @@ Proof.
   - (* Enc *)
     rewrite (i_enc I). destruct (Bool.eqb (encrypted s) b).
     + split; [exact I|]. repeat split; auto; left; reflexivity.
-    + split; [|repeat split; auto; left; reflexivity]. destruct I. inv_solve.
+    + split; [|repeat split; auto; left; reflexivity]. pose proof (local_lrel I) as Hl. destruct I. inv_solve.
   - (* Key *)
     split; [exact I|]. split; [reflexivity|]. split; [left; reflexivity|]. split; [|split; [left; reflexivity|auto]].
     unfold check33, expected_key, find_key, maddr.
@@ -806,4 +849,341 @@ Proof.
     + repeat split; auto; try discriminate. intros [H|H]; discriminate.
 Qed.
 
+(* ---- whole traces ---- *)
+Lemma dead_run c s ops : dead s = true -> Forall (fun x => snd x = OSkipped) (run K D c s ops) /\ True.
+Proof.
+  split; auto. revert s H. induction ops as [|o t IH]; intros s H; cbn; [constructor|].
+  unfold SMModel.step. rewrite H. constructor; auto.
+Qed.
+
+Lemma monitor_dead check c (m : mon) pos tr :
+  m_dead m = true -> Forall (fun x => snd x = OSkipped) tr -> monitor_from (mstep_with K D check) c m pos tr = None.
+Proof.
+  intros Hm H. revert pos. induction H as [|[o r] t Hx Ht IH]; intros pos; cbn; auto.
+  cbn in Hx. subst r. unfold mstep_with. rewrite Hm. apply IH.
+Qed.
+
+Section Mon.
+Variable check : smcfg -> mon -> op -> out -> option nat.
+Variable allowed : smcfg -> nat -> Prop.
+Hypothesis Hcheck : forall c s m o, Inv c s m -> dead s = false ->
+  match check c m o (snd (step c s o)) with None => True | Some t => allowed c t end.
+
+Lemma monitor_allowed ops : forall c s m pos, Inv c s m ->
+  match monitor_from (mstep_with K D check) c m pos (run K D c s ops) with
+  | None => True
+  | Some (_, t) => allowed c t
+  end.
+Proof.
+  induction ops as [|o t IH]; intros c s m pos I; [exact Logic.I|].
+  cbn [run]. pose proof (Hcheck o I) as C. pose proof (step_ok o I) as G.
+  pose proof (dead_run c s (o :: t)) as F. cbn [run] in F.
+  destruct (step c s o) as [s' r] eqn:Es. cbn [monitor_from].
+  destruct (dead s) eqn:Hd.
+  - (* the process is gone: only SKIPPED follows *)
+    destruct (F eq_refl) as [F1 _].
+    assert (m_dead m = true) as Hm by (rewrite (i_dead I); auto).
+    pose proof (@monitor_dead check c m pos ((o, r) :: run K D c s' t) Hm F1) as E. cbn [monitor_from] in E.
+    rewrite E. exact Logic.I.
+  - specialize (C eq_refl). specialize (G eq_refl). cbn in C. unfold step_good in G.
+    destruct G as (G1 & G2 & _).
+    unfold mstep_with. rewrite (i_dead I), Hd, G2. cbn [negb].
+    destruct (check c m o r) as [tg|].
+    + exact C.
+    + apply IH. exact G1.
+Qed.
+End Mon.
+
+Lemma numeric_cfg_dec c : numeric_cfg c \/ ~ numeric_cfg c.
+Proof.
+  unfold numeric_cfg. destruct (c_inp c), (c_outp c); auto; right; intros [A B]; discriminate.
+Qed.
+
+(* C32: on model traces only the clauses of the numeric comparison defect can fail ... *)
+Theorem monitor32_only_known c db0 ops :
+  match monitor32 K D c db0 (run K D c (init_state db0) ops) with
+  | None => True
+  | Some (_, t) => t = t_eb_before_ea \/ t = t_eb_bad_ea \/ t = t_fault
+  end.
+Proof.
+  unfold monitor32, mstep32.
+  apply (@monitor_allowed (@check32 K DB) (fun _ t => t = t_eb_before_ea \/ t = t_eb_bad_ea \/ t = t_fault)); [|apply inv_init].
+  intros c0 s m o I Hd. pose proof (step_ok o I Hd) as G. destruct (step c0 s o) as [s' r]. cbn.
+  destruct G as (_ & _ & G & _). destruct G as [-> | [-> | [-> | ->]]]; auto.
+Qed.
+
+(* ... and none at all when the configuration cannot ask the user to compare numbers *)
+Theorem monitor32_accepts c db0 ops :
+  ~ numeric_cfg c -> monitor32 K D c db0 (run K D c (init_state db0) ops) = None.
+Proof.
+  intros Hn. unfold monitor32, mstep32.
+  assert (forall c0 s m o, Inv c0 s m -> dead s = false ->
+            match check32 K c0 m o (snd (step c0 s o)) with None => True | Some t => numeric_cfg c0 end) as Hc.
+  { intros c0 s m o I Hd. pose proof (step_ok o I Hd) as G. destruct (step c0 s o) as [s' r]. cbn.
+    destruct G as (_ & _ & _ & _ & _ & G).
+    destruct (numeric_cfg_dec c0) as [Y|Nn]; [destruct (check32 K c0 m o r); auto|]. rewrite (G Nn). exact Logic.I. }
+  pose proof (@monitor_allowed (@check32 K DB) (fun c0 _ => numeric_cfg c0) Hc ops c (init_state db0) (minit db0) O (inv_init c db0)) as H.
+  destruct (monitor_from _ _ _ _ _) as [[p t]|]; [contradiction|reflexivity].
+Qed.
+
+(* C33: every key request of every trace is answered as specified *)
+Theorem monitor33_accepts c db0 ops : monitor33 K D c db0 (run K D c (init_state db0) ops) = None.
+Proof.
+  unfold monitor33, mstep33.
+  assert (forall c0 s m o, Inv c0 s m -> dead s = false ->
+            match check33 D c0 m o (snd (step c0 s o)) with None => True | Some t => False end) as Hc.
+  { intros c0 s m o I Hd. pose proof (step_ok o I Hd) as G. destruct (step c0 s o) as [s' r]. cbn.
+    destruct G as (_ & _ & _ & G & _). rewrite G. exact Logic.I. }
+  pose proof (@monitor_allowed (@check33 DB D) (fun _ _ => False) Hc ops c (init_state db0) (minit db0) O (inv_init c db0)) as H.
+  destruct (monitor_from _ _ _ _ _) as [[p t]|]; [contradiction|reflexivity].
+Qed.
+
+(* C34: the only clause that can fail is dist_stale *)
+Theorem monitor34_only_stale c db0 ops :
+  match monitor34 K D c db0 (run K D c (init_state db0) ops) with
+  | None => True
+  | Some (_, t) => t = t_dist_stale
+  end.
+Proof.
+  unfold monitor34, mstep34.
+  apply (@monitor_allowed (@check34 DB) (fun _ t => t = t_dist_stale)); [|apply inv_init].
+  intros c0 s m o I Hd. pose proof (step_ok o I Hd) as G. destruct (step c0 s o) as [s' r]. cbn.
+  destruct G as (_ & _ & _ & _ & G & _). destruct G as [-> | ->]; auto.
+Qed.
+
+(* C35: the reported status is the specified one, except that the combined manager may report
+   authenticated for an exchange that did not authenticate and the LESC-only manager unauthenticated for
+   one that did *)
+Definition allowed35 (c : smcfg) (t : nat) : Prop :=
+  (c_var c = MBoth /\ (t = t_auth_not_performed \/ t = t_link_auth_not_performed))
+  \/ (c_var c = MLesc /\ (t = t_auth_not_reported \/ t = t_link_auth_not_reported)).
+
+Lemma status_tag_lrel c link got want : lrel c got want ->
+  match status_tag link got want with None => True | Some t => allowed35 c t end.
+Proof.
+  unfold lrel, status_tag, allowed35. intros [E | [(Hv & -> & ->) | (Hv & -> & ->)]].
+  - subst. rewrite N.eqb_refl. exact Logic.I.
+  - cbn. left. destruct link; auto.
+  - cbn. right. destruct link; auto.
+Qed.
+
+Lemma check35_ok c s m o : Inv c s m -> dead s = false ->
+  match check35 c m o (snd (step c s o)) with None => True | Some t => allowed35 c t end.
+Proof.
+  intros I Hd.
+  assert (forall r, o <> Status -> check35 c m o r = None) as Hns by (intros r; destruct o; try reflexivity; congruence).
+  destruct o as [pdu| | | |n|b|ediv rnd| |a]; try (rewrite Hns; [exact Logic.I|discriminate]).
+  unfold SMModel.step. rewrite Hd. cbn.
+  pose proof (status_tag_lrel false (local_lrel I)) as H1. pose proof (status_tag_lrel true (i_link I)) as H2.
+  destruct (status_tag false (local_status c s) (expected_status c m)); auto.
+Qed.
+
+Theorem monitor35_only_known c db0 ops :
+  match monitor35 K D c db0 (run K D c (init_state db0) ops) with
+  | None => True
+  | Some (_, t) => allowed35 c t
+  end.
+Proof.
+  unfold monitor35, mstep35.
+  apply (@monitor_allowed (@check35 DB) allowed35); [|apply inv_init].
+  intros. apply check35_ok; auto.
+Qed.
+
+(* ... in particular the legacy manager (and the rejecting one) report exactly the specified status *)
+Theorem monitor35_legacy_exact c db0 ops :
+  c_var c = MLegacy \/ c_var c = MNone -> monitor35 K D c db0 (run K D c (init_state db0) ops) = None.
+Proof.
+  intros Hv. pose proof (monitor35_only_known c db0 ops) as H.
+  destruct (monitor35 K D c db0 _) as [[p t]|]; [|reflexivity].
+  exfalso. unfold allowed35 in H. destruct Hv as [Hv|Hv]; rewrite Hv in H; destruct H as [[H _]|[H _]]; discriminate.
+Qed.
+
 End Proofs.
+
+(* ---------------------------------------------------------------------------------------------
+   The toy tool box satisfies the two hypotheses, and concrete witnesses (toy instance, computed)
+   for the clauses that do fail. *)
+From BT Require Import SM.ToyCrypto.
+
+Lemma toy_x16_length v : length (toy_x16 v) = 16%nat.
+Proof. reflexivity. Qed.
+
+Lemma toy_dh_ok : dh_ok toy.
+Proof.
+  intros n pk. cbn [k_p256 k_dhpub k_keys toy]. unfold toy_p256, toy_dhpub, toy_keys. cbn [fst snd].
+  reflexivity.
+Qed.
+
+Lemma rd32_le32 v l : v < 4294967296 -> rd32 (le32 v ++ l) = v.
+Proof.
+  intros H. unfold rd32, le32, byte. cbn [app nth].
+  pose proof (N.div_mod' v 256). pose proof (N.div_mod' (v / 256) 256). pose proof (N.div_mod' (v / 65536) 256).
+  assert (v / 65536 = v / 256 / 256) as E1 by (rewrite N.div_div by lia; reflexivity).
+  assert (v / 16777216 = v / 65536 / 256) as E2 by (rewrite N.div_div by lia; reflexivity).
+  assert (v / 16777216 < 256) by (apply N.div_lt_upper_bound; lia).
+  rewrite (N.mod_small (v / 16777216) 256) by lia.
+  rewrite E2. rewrite E1 in *. lia.
+Qed.
+
+Lemma toy_passkey_ok : passkey_ok toy.
+Proof.
+  intros n. cbn [k_passkey toy]. unfold toy_passkey.
+  rewrite rd32_le32; [reflexivity|].
+  pose proof (N.mod_upper_bound (toy_h 16 (ctr_bytes n)) 1000000). lia.
+Qed.
+
+(* LESC manager, yes/no buttons and a display: the configurations of the numeric comparison *)
+Definition cfg_numeric (v : smvariant) (yn : yn_mode) : smcfg :=
+  mksmcfg v SMSelectModel.InYesNo SMSelectModel.OutNumeric false false yn false.
+Definition toy_pk : list N := zeros 63 ++ [165].
+Definition toy_monitor32 c ops := monitor32 toy toydbops c [] (run toy toydbops c (init_state ([] : toydb)) ops).
+Definition toy_monitor33 c ops := monitor33 toy toydbops c [] (run toy toydbops c (init_state ([] : toydb)) ops).
+Definition toy_monitor34 c ops := monitor34 toy toydbops c [] (run toy toydbops c (init_state ([] : toydb)) ops).
+Definition toy_monitor35 c ops := monitor35 toy toydbops c [] (run toy toydbops c (init_state ([] : toydb)) ops).
+
+(* the user's handler answers yes at once: the first output poll after Pairing Random sends Eb, no Ea seen *)
+Definition w_eb_before_ea : list op :=
+  [In [1; 1; 0; 8; 16; 0; 1]; In (12 :: toy_pk); Out; In (4 :: zeros 16); Out].
+Lemma eb_before_ea_witness :
+  toy_monitor32 (cfg_numeric MLesc SyncYes) w_eb_before_ea = Some (4%nat, t_eb_before_ea).
+Proof. vm_compute. reflexivity. Qed.
+
+(* asynchronous answer: a wrong Ea is swallowed while waiting, Eb goes out after the user's yes *)
+Definition w_eb_bad_ea : list op :=
+  [In [1; 4; 0; 8; 16; 0; 1]; In (12 :: toy_pk); Out; In (4 :: zeros 16); In (13 :: zeros 16); Yes; Out; Key 0 0].
+Lemma eb_bad_ea_witness :
+  toy_monitor32 (cfg_numeric MBoth Async) w_eb_bad_ea = Some (6%nat, t_eb_bad_ea).
+Proof. vm_compute. reflexivity. Qed.
+(* ... and the key of that exchange is offered for encryption *)
+Lemma eb_bad_ea_key_offered :
+  exists k, nth 7 (map snd (run toy toydbops (cfg_numeric MBoth Async) (init_state ([] : toydb)) w_eb_bad_ea)) ODone = OKey (Some k).
+Proof. eexists. vm_compute. reflexivity. Qed.
+
+(* the pairing is aborted while the application still holds the response object; its answer asserts *)
+Definition w_late_answer : list op :=
+  [In [1; 4; 0; 8; 16; 0; 1]; In (12 :: toy_pk); Out; In (4 :: zeros 16); In [11]; Yes].
+Lemma late_answer_witness :
+  toy_monitor32 (cfg_numeric MLesc Async) w_late_answer = Some (5%nat, t_fault).
+Proof. vm_compute. reflexivity. Qed.
+
+
+(* ---- the full statements and their refutations ---- *)
+Definition tool_box_ok (K : crypto) : Prop := dh_ok K /\ passkey_ok K.
+
+Definition order_full : Prop :=
+  forall (K : crypto) (DB : Type) (D : dbops DB), tool_box_ok K ->
+  forall c db0 ops, wf c = true -> monitor32 K D c db0 (run K D c (init_state db0) ops) = None.
+Lemma order_refuted : ~ order_full.
+Proof.
+  intros H. specialize (H toy toydb toydbops (conj toy_dh_ok toy_passkey_ok) (cfg_numeric MLesc SyncYes) [] w_eb_before_ea eq_refl).
+  pose proof eb_before_ea_witness as W. unfold toy_monitor32 in W. rewrite H in W. discriminate.
+Qed.
+
+(* C34 *)
+Definition cfg_bond_legacy : smcfg := mksmcfg MLegacy SMSelectModel.InNone SMSelectModel.OutNone false true Async false.
+Definition w34_preq : list N := [1; 3; 0; 0; 16; 0; 1].
+Definition w34_pres : list N := [2; 3; 0; 1; 16; 0; 1].
+Definition w34_mconfirm : list N := toy_c1 (zeros 16) (zeros 16) (c1_p1 w34_preq w34_pres) (c1_p2 0).
+(* a complete Just Works pairing; a stray Security Request gets Pairing Failed (state idle, the STK is no
+   longer offered); the link becomes encrypted; the next poll sends the long term key *)
+Definition w_dist_stale : list op :=
+  [In w34_preq; In (3 :: w34_mconfirm); In (4 :: zeros 16); In [11]; Key 0 0; Enc true; Out].
+Lemma dist_stale_witness : toy_monitor34 cfg_bond_legacy w_dist_stale = Some (6%nat, t_dist_stale).
+Proof. vm_compute. reflexivity. Qed.
+Lemma dist_stale_outputs :
+  exists k r, map snd (run toy toydbops cfg_bond_legacy (init_state ([] : toydb)) w_dist_stale)
+    = [OResp w34_pres []; OResp (3 :: r) []; OResp (4 :: toy_srand 0) [EStore k (toy_h 22 (ctr_bytes 1)) (toy_h 21 (ctr_bytes 1) mod 65536)];
+       OResp [5; 7] []; OKey None; ODone; OResp (6 :: k) []].
+Proof. eexists. eexists. vm_compute. reflexivity. Qed.
+
+Definition dist_full : Prop :=
+  forall (K : crypto) (DB : Type) (D : dbops DB), tool_box_ok K ->
+  forall c db0 ops, wf c = true -> monitor34 K D c db0 (run K D c (init_state db0) ops) = None.
+Lemma dist_refuted : ~ dist_full.
+Proof.
+  intros H. specialize (H toy toydb toydbops (conj toy_dh_ok toy_passkey_ok) cfg_bond_legacy [] w_dist_stale eq_refl).
+  pose proof dist_stale_witness as W. unfold toy_monitor34 in W. rewrite H in W. discriminate.
+Qed.
+
+(* C35 *)
+Definition w35_na : list N := zeros 16.
+Definition w35_nb : list N := toy_nonce 1.
+Definition w35_pkb : list N := fst (toy_keys 0).
+Definition w35_ea (rio : list N) : list N :=
+  toy_f6 (fst (toy_f5 (toy_dhpub w35_pkb toy_pk) w35_na w35_nb (remote_addr 0) local_addr))
+         w35_na w35_nb (zeros 16) rio (remote_addr 0) local_addr.
+(* combined manager without any IO: the central sets its OOB flag, "OOB" is selected, the exchange performed is
+   Just Works, the status is authenticated *)
+Definition cfg_both_noio : smcfg := mksmcfg MBoth SMSelectModel.InNone SMSelectModel.OutNone false false Async false.
+Definition w_auth_not_performed : list op :=
+  [In [1; 3; 1; 8; 16; 0; 1]; In (12 :: toy_pk); Out; In (4 :: w35_na); In (13 :: w35_ea [3; 1; 8]); Status].
+Lemma auth_not_performed_witness :
+  toy_monitor35 cfg_both_noio w_auth_not_performed = Some (5%nat, t_auth_not_performed).
+Proof. vm_compute. reflexivity. Qed.
+Lemma auth_not_performed_status :
+  nth 5 (map snd (run toy toydbops cfg_both_noio (init_state ([] : toydb)) w_auth_not_performed)) ODone
+  = OStatus authenticated_key no_key.
+Proof. vm_compute. reflexivity. Qed.
+(* LESC-only manager: numeric comparison confirmed by the user, Ea verified, status unauthenticated *)
+Definition w_auth_not_reported : list op :=
+  [In [1; 1; 0; 8; 16; 0; 1]; In (12 :: toy_pk); Out; In (4 :: w35_na); In (13 :: w35_ea [1; 0; 8]); Status].
+Lemma auth_not_reported_witness :
+  toy_monitor35 (cfg_numeric MLesc SyncYes) w_auth_not_reported = Some (5%nat, t_auth_not_reported).
+Proof. vm_compute. reflexivity. Qed.
+
+Definition status_full : Prop :=
+  forall (K : crypto) (DB : Type) (D : dbops DB), tool_box_ok K ->
+  forall c db0 ops, wf c = true -> monitor35 K D c db0 (run K D c (init_state db0) ops) = None.
+Lemma status_refuted : ~ status_full.
+Proof.
+  intros H. specialize (H toy toydb toydbops (conj toy_dh_ok toy_passkey_ok) cfg_both_noio [] w_auth_not_performed eq_refl).
+  pose proof auth_not_performed_witness as W. unfold toy_monitor35 in W. rewrite H in W. discriminate.
+Qed.
+
+(* non-vacuity: complete exchanges that the monitors accept *)
+Definition cfg_keyboard_display : smcfg := mksmcfg MLegacy SMSelectModel.InKeyboard SMSelectModel.OutNumeric false true Async false.
+Definition w_pk_preq : list N := [1; 4; 0; 0; 16; 0; 1].
+Definition w_pk_pres : list N := [2; 4; 0; 1; 16; 0; 1].
+(* legacy passkey entry (the user types 123456 on our keyboard), bonding, key distribution on the encrypted link *)
+Definition w_legacy_passkey : list op :=
+  [Passkey 123456; In w_pk_preq;
+   In (3 :: toy_c1 (le32 123456 ++ zeros 12) (zeros 16) (c1_p1 w_pk_preq w_pk_pres) (c1_p2 0));
+   In (4 :: zeros 16); Status; Key 0 0; Out; Enc true; Status; Out; Out; Out; Key 7 7].
+Lemma legacy_passkey_accepted :
+  toy_monitor32 cfg_keyboard_display w_legacy_passkey = None /\ toy_monitor33 cfg_keyboard_display w_legacy_passkey = None
+  /\ toy_monitor34 cfg_keyboard_display w_legacy_passkey = None /\ toy_monitor35 cfg_keyboard_display w_legacy_passkey = None.
+Proof. vm_compute. repeat split; reflexivity. Qed.
+Lemma legacy_passkey_outputs :
+  exists a b k d e ci, map snd (run toy toydbops cfg_keyboard_display (init_state ([] : toydb)) w_legacy_passkey)
+  = [ODone; OResp w_pk_pres []; OResp (3 :: a) [EDisplay 123456]; OResp (4 :: toy_srand 0) [EStore k e d];
+     OStatus authenticated_key no_key; OKey (Some b); OResp [] []; ODone; OStatus authenticated_key authenticated_key;
+     OResp (6 :: k) []; OResp (7 :: ci) []; OResp [] []; OKey None].
+Proof. do 6 eexists. vm_compute. reflexivity. Qed.
+(* LESC Just Works on the combined manager with a verified DHKey check *)
+Lemma lesc_just_works_accepted :
+  let ops := [In [1; 3; 0; 8; 16; 0; 1]; In (12 :: toy_pk); Out; In (4 :: w35_na); In (13 :: w35_ea [3; 0; 8]); Status; Key 0 0] in
+  toy_monitor32 cfg_both_noio ops = None /\ toy_monitor33 cfg_both_noio ops = None /\ toy_monitor35 cfg_both_noio ops = None.
+Proof. vm_compute. repeat split; reflexivity. Qed.
+(* the monitors are not trivially accepting *)
+Lemma monitor_rejects_random_before_confirm :
+  monitor_from (mstep32 toy toydbops) cfg_bond_legacy (minit ([] : toydb)) O
+    [(In w34_preq, OResp w34_pres []); (In (4 :: zeros 16), OResp (4 :: zeros 16) [])] = Some (1%nat, t_order).
+Proof. vm_compute. reflexivity. Qed.
+Lemma monitor_rejects_unverified_confirm :
+  monitor_from (mstep32 toy toydbops) cfg_bond_legacy (minit ([] : toydb)) O
+    [(In w34_preq, OResp w34_pres []); (In (3 :: zeros 16), OResp (3 :: zeros 16) []); (In (4 :: zeros 16), OResp (4 :: zeros 16) [])]
+  = Some (2%nat, t_order).
+Proof. vm_compute. reflexivity. Qed.
+Lemma monitor_rejects_key_after_failure :
+  monitor_from (mstep33 toy toydbops) cfg_bond_legacy (minit ([] : toydb)) O
+    [(In w34_preq, OResp w34_pres []); (In [11], OResp [5; 7] []); (Key 0 0, OKey (Some (zeros 16)))] = Some (2%nat, t_key_without_pairing).
+Proof. vm_compute. reflexivity. Qed.
+Lemma monitor_rejects_unencrypted_distribution :
+  monitor_from (mstep34 toy toydbops) cfg_bond_legacy (minit ([] : toydb)) O
+    [(In w34_preq, OResp w34_pres []); (Out, OResp (6 :: zeros 16) [])] = Some (1%nat, t_dist_unencrypted).
+Proof. vm_compute. reflexivity. Qed.
+Lemma monitor_rejects_authenticated_just_works :
+  monitor_from (mstep35 toy toydbops) cfg_bond_legacy (minit ([] : toydb)) O
+    [(In w34_preq, OResp w34_pres []); (In (3 :: w34_mconfirm), OResp (3 :: zeros 16) []);
+     (In (4 :: zeros 16), OResp (4 :: zeros 16) []); (Status, OStatus authenticated_key no_key)] = Some (3%nat, t_auth_not_performed).
+Proof. vm_compute. reflexivity. Qed.
